@@ -89,8 +89,14 @@ fn families(id: &str, tier: Tier) -> Vec<BFamily<'static>> {
     }
     "C11" => {
       let (l, t, d) = if q { (4, 3, 1) } else { (5, 3, 1) };
-      add("repeat B->B Special{[LEFTCTRL,C],130,30}, A->A Disabled over {A,B,LEFTCTRL}", l_repeat(), cfg(&[A, B, LEFTCTRL], l, 0, d, t, 30));
-      if !q { add("same layout, deviation bound 2", l_repeat(), cfg(&[A, B, LEFTCTRL], 4, 0, 2, 3, 30)); add("same layout over {B,LEFTCTRL}, up to 6 time-outs", l_repeat(), cfg(&[B, LEFTCTRL], 4, 0, 1, 6, 30)); }
+      // the three largest thorough families keep the deviation menu they were sized with (no empty wake-ups); the quick-sized family with them follows
+      let noempty = |mut c: EnvCfg| { c.empty_wakeups = false; c };
+      if q { add("repeat B->B Special{[LEFTCTRL,C],130,30}, A->A Disabled over {A,B,LEFTCTRL}", l_repeat(), cfg(&[A, B, LEFTCTRL], l, 0, d, t, 30)); }
+      else {
+        add("repeat B->B Special{[LEFTCTRL,C],130,30}, A->A Disabled over {A,B,LEFTCTRL} (deviations without empty wake-ups)", l_repeat(), noempty(cfg(&[A, B, LEFTCTRL], l, 0, d, t, 30)));
+        add("same layout, histories up to 4, all deviation kinds", l_repeat(), cfg(&[A, B, LEFTCTRL], 4, 0, 1, 3, 30));
+        add("same layout, deviation bound 2 (without empty wake-ups)", l_repeat(), noempty(cfg(&[A, B, LEFTCTRL], 4, 0, 2, 3, 30))); add("same layout over {B,LEFTCTRL}, up to 6 time-outs (without empty wake-ups)", l_repeat(), noempty(cfg(&[B, LEFTCTRL], 4, 0, 1, 6, 30)));
+      }
       add("same layout with up to two tablet events", l_repeat(), cfg(&[B, LEFTCTRL], l, 2, if q { 0 } else { 1 }, if q { 2 } else { 3 }, 30));
       add("B->D Special{[E],130,30} over {B,D}: the output key of the repeating mapping is pressed physically", l_out_key(), cfg(&[B, D], l, 0, if q { 0 } else { 1 }, t, 30));
       { let mut cl = cfg(&[A, B, LEFTCTRL], if q { 5 } else { 6 }, 0, 0, 3, 30); cl.single_event_wakeups = true;
